@@ -6,6 +6,7 @@ package main
 
 import (
 	"bytes"
+	"context"
 	"fmt"
 	"math/rand"
 	"reflect"
@@ -388,6 +389,36 @@ func main() {
 			}
 		}
 	}
+	// sweeps at wire resolution: every whole millisecond / second of a stretch, and random whole units of the full range
+	var sweep []int64
+	for ms := int64(980); ms <= 1130; ms++ {
+		sweep = append(sweep, ms)
+	}
+	for k := 0; k < 150; k++ {
+		sweep = append(sweep, rng.Int63n(4294967296))
+	}
+	for _, u := range sweep {
+		m1, _, _, _, err := roundtrip(codecs[int(u)%2], &message.UpstreamOpenRequest{AckInterval: time.Duration(u) * time.Millisecond})
+		out := "err"
+		if err == nil {
+			out = strconv.FormatInt(int64(m1.(*message.UpstreamOpenRequest).AckInterval), 10)
+		}
+		h.Op(fmt.Sprintf("durms %d", u*1000000), out)
+		if err == nil && m1.(*message.UpstreamOpenRequest).AckInterval != time.Duration(u)*time.Millisecond {
+			h.Violate(fmt.Sprintf("AckInterval of %d whole milliseconds decodes as %v", u, m1.(*message.UpstreamOpenRequest).AckInterval))
+		}
+		if u*1000000000/1000000000 == u && u < 4294967296 && u*1000000000 > 0 {
+			m2, _, _, _, err := roundtrip(codecs[int(u)%2], &message.UpstreamOpenRequest{ExpiryInterval: time.Duration(u) * time.Second})
+			out = "err"
+			if err == nil {
+				out = strconv.FormatInt(int64(m2.(*message.UpstreamOpenRequest).ExpiryInterval), 10)
+			}
+			h.Op(fmt.Sprintf("durs %d", u*1000000000), out)
+			if err == nil && m2.(*message.UpstreamOpenRequest).ExpiryInterval != time.Duration(u)*time.Second {
+				h.Violate(fmt.Sprintf("ExpiryInterval of %d whole seconds decodes as %v", u, m2.(*message.UpstreamOpenRequest).ExpiryInterval))
+			}
+		}
+	}
 	// size gate
 	for _, max := range []int{0, 1, 10, 100} {
 		for _, n := range []int{0, 1, 9, 10, 11, 99, 100, 101, 5000} {
@@ -405,10 +436,11 @@ func main() {
 	h.Distinct("tables")
 
 	// ---- 2. every message kind, exhaustively over variants, randomly over contents
-	reps := 40 + h.N/4
+	reps := 80 + h.N/4
 	for ki, mk := range kinds {
 		for variant := 0; variant < reps; variant++ {
-			g := &gen{rng: rng, canonical: variant%3 != 2, variant: variant, nilExt: variant%5 == 4}
+			// the first 36 variants walk through every result code (and QoS, oneof variant) in canonical form: equality is demanded
+			g := &gen{rng: rng, canonical: variant < 36 || variant%3 != 2, variant: variant, nilExt: variant%5 == 4}
 			m := mk()
 			g.fill(reflect.ValueOf(m).Elem(), 0)
 			name := fmt.Sprintf("%T/%d canonical=%v nilext=%v", m, variant, g.canonical, g.nilExt)
@@ -638,6 +670,13 @@ func main() {
 			close(stop)
 			continue
 		}
+		// an application that listens: subscriptions on a few aliases (dispatch tables the read path consults)
+		sctx, scancel := context.WithTimeout(context.Background(), time.Second)
+		conn.SubscribeDownstreamChunk(sctx, 2, message.QoSReliable)
+		conn.SubscribeDownstreamChunkAckComplete(sctx, 2)
+		conn.SubscribeDownstreamMeta(sctx, 2, "nodeA")
+		conn.SubscribeUpstreamChunkAck(sctx, 3)
+		scancel()
 		outcome := "alive"
 		k := 1 + rng.Intn(5)
 		for j := 0; j < k && outcome == "alive"; j++ {
@@ -647,7 +686,11 @@ func main() {
 			}
 			b := append([]byte(nil), e[1].([]byte)...)
 			what := "valid"
-			switch rng.Intn(6) {
+			kindOf := rng.Intn(8)
+			if fc%2 == 0 { // every other connection sees well-formed frames only (valid or misaddressed): it must stay fully usable
+				kindOf = 4 + rng.Intn(3)
+			}
+			switch kindOf {
 			case 0:
 				what = "truncated"
 				if len(b) > 0 {
@@ -665,6 +708,18 @@ func main() {
 			case 3:
 				what = "oversized"
 				b = bytes.Repeat([]byte{0x0a}, 1<<16+1+rng.Intn(100))
+			case 4:
+				what = "misaddressed"
+				mis := []message.Message{
+					&message.DownstreamMetadata{StreamIDAlias: 2, SourceNodeID: "unknown-node", Metadata: &message.BaseTime{Name: "x"}, ExtensionFields: &message.DownstreamMetadataExtensionFields{}},
+					&message.DownstreamMetadata{StreamIDAlias: 77, SourceNodeID: "nodeA", Metadata: &message.BaseTime{Name: "x"}, ExtensionFields: &message.DownstreamMetadataExtensionFields{}},
+					&message.DownstreamChunk{StreamIDAlias: 78, UpstreamOrAlias: message.UpstreamAlias(9), StreamChunk: &message.StreamChunk{}, ExtensionFields: &message.DownstreamChunkExtensionFields{}},
+					&message.DownstreamChunkAckComplete{StreamIDAlias: 79, AckID: 5, ExtensionFields: &message.DownstreamChunkAckCompleteExtensionFields{}},
+					&message.UpstreamChunkAck{StreamIDAlias: 80, ExtensionFields: &message.UpstreamChunkAckExtensionFields{}},
+					&message.UpstreamCallAck{CallID: "nobody", ExtensionFields: &message.UpstreamCallAckExtensionFields{}},
+					&message.UpstreamOpenResponse{RequestID: 4242, ExtensionFields: &message.UpstreamOpenResponseExtensionFields{}},
+				}
+				b = enc(mis[rng.Intn(len(mis))])
 			}
 			h.Count("frames:" + what)
 			select {
@@ -696,6 +751,22 @@ func main() {
 			}
 		}
 		h.Count("frames:outcome:" + outcome)
+		if outcome == "alive" {
+			// the dispatch tables are still usable: a call that needs them exclusively returns
+			lk := make(chan struct{})
+			go func() {
+				c2, cancel2 := context.WithTimeout(context.Background(), time.Second)
+				conn.SubscribeDownstreamMeta(c2, 5, "nodeB")
+				conn.SubscribeDownstreamChunk(c2, 5, message.QoSReliable)
+				cancel2()
+				close(lk)
+			}()
+			select {
+			case <-lk:
+			case <-time.After(2 * time.Second):
+				h.Violate("after the frames the connection still answers pings but a subscription call blocks for more than 2 s: the read path kept a lock")
+			}
+		}
 		done := make(chan struct{})
 		go func() { conn.Close(); close(done) }()
 		select {
